@@ -831,7 +831,8 @@ def generate(seed, prop, tier):
                 ev["tls_opt"] = r.pick([None, None, False, True])
                 if r.chance(0.4):
                     doc["valid_until"] = r.pick([-86400, -1, -1])      # a feed that has expired as a whole
-            if typ == "remote" and wrapper == "entities" and r.chance(0.6):
+            if typ == "remote" and (wrapper == "entities" or not ev.get("via_imp")) and r.chance(0.6):
+                # (signed aggregates, and signed stand-alone EntityDescriptor documents - MDQ style)
                 ev["sign"] = r.randrange(12)
                 ev["cert_conf"] = r.pick([ev["sign"], ev["sign"], (ev["sign"] + 1) % 12, None])
             elif typ == "file" and ev.get("via_imp") and wrapper == "entities" and r.chance(0.5):
